@@ -49,6 +49,18 @@ def c08(c):
     if c.tier == "thorough":
         args.append("-allcuts")
     c.harness("httpparse", args, overlay=True, model=HTTP_MODEL, timeout=3000)
+    c.harness("httpref", ["-n", n(c, 300, 5000)], overlay=True, model=HTTP_MODEL, timeout=3000)
+    c.finish()
+
+
+def c07(c):
+    c.coq(["http"], "C07", "HttpC")
+    c.trusted += [EXTRACT_TB,
+                  "net/http (http.ReadRequest / http.ReadResponse) is the reference; that the model's `meaning` coincides with what net/http extracts is tested on every generated message, not proved",
+                  "url.ParseRequestURI and http.ParseHTTPVersion are shared stdlib calls",
+                  "Go harness cmd/httpref (real ServerProcessor/ClientProcessor + handler)"]
+    c.assumptions += ["theorem covers body-less requests and their pipelining only (c07_*_partial); bodies, chunking, trailers and responses are decided by the differential run"]
+    c.harness("httpref", ["-n", n(c, 3000, 100000)], overlay=True, model=HTTP_MODEL, timeout=3000)
     c.finish()
 
 
@@ -69,10 +81,11 @@ MODELS = [
     HTTP_MODEL,
     ("mempool", "Extract.v", ["mmodel"], "main.ml"),
 ]
-HARNESSES = [("mempool", False), ("httpparse", True), ("httpresp", True)]
+HARNESSES = [("mempool", False), ("httpparse", True), ("httpresp", True), ("httpref", True)]
 
 CHECKS = {
     "C06": c06,
+    "C07": c07,
     "C08": c08,
     "C09": c09,
     "C20": c20,
